@@ -131,16 +131,14 @@ Section Parsed.
   Qed.
 
   (* MafRecord.from_line(line, scheme=s, ...) returned a record without
-     validation errors: it is typed by s, up to C04's side condition on the
-     values it holds *)
-  Theorem parsed_typed_by (s : scheme) line ln m lg l (r : mrec) :
+     validation errors: every stored value is of exactly the scheme's class for
+     its column and was built by that class *)
+  Theorem parsed_built (s : scheme) line ln m lg l (r : mrec) :
     s_truthy s = true -> NoDup (s_names s) ->
     from_line sem line None (Some s) ln (Some m) lg = (l, Ok r) -> merrs r = [] ->
-    Forall (fun np => match snd np with PTyped c w => value_hazard c w = false | PPlain _ => True end)
-           (cells_of_rec (mcols r)) ->
-    typed_by sem value_hazard s r.
+    Forall (fun np => built_cell (s_class s (fst np)) (snd np)) (cells_of_rec (mcols r)).
   Proof.
-    intros Ht ND H Herr Hhz. rewrite from_line_unfold in H. unfold finish in H.
+    intros Ht ND H Herr. rewrite from_line_unfold in H. unfold finish in H.
     destruct (fl_core sem line None (Some s) ln) as [[cols errs]|e] eqn:EF; [|discriminate].
     apply obind_process_ok in H. subst r. cbn [mk_mrec merrs mcols] in *. subst errs.
     unfold fl_core in EF.
@@ -159,15 +157,33 @@ Section Parsed.
       - exact EL. }
     unfold rv_core in EF.
     destruct (validate_slots sem (rlist cols0) 0 false None ln) as [[es fn] sl'] eqn:EV.
-    injection EF as <- _. unfold FileIORows.typed_by, FileIORows.cells_of_rec. cbn [mk_mrec mcols rlist].
+    injection EF as <- _. unfold FileIORows.cells_of_rec. cbn [mk_mrec mcols rlist].
     pose proof (validate_slots_cells None false ln _ _ _ _ _ EV) as Ecells.
-    pose proof (slots_built_somes s sl' (slots_built_cells s _ _ Ecells Hb0)) as Hb.
-    unfold FileIORows.cells_of_rec in Hhz. cbn [mk_mrec mcols rlist] in Hhz.
-    set (cells := map (@cell_of C W) (somes sl')) in *.
-    clearbody cells. clear - Hb Hhz. induction Hb as [|[n p] cells Hx _ IH]; [constructor|].
+    exact (slots_built_somes s sl' (slots_built_cells s _ _ Ecells Hb0)).
+  Qed.
+
+  (* ... so it is typed by s, up to C04's side condition on the values it holds *)
+  Lemma built_typed_by (s : scheme) (r : mrec) :
+    Forall (fun np => built_cell (s_class s (fst np)) (snd np)) (cells_of_rec (mcols r)) ->
+    Forall (fun np => match snd np with PTyped c w => value_hazard c w = false | PPlain _ => True end)
+           (cells_of_rec (mcols r)) ->
+    typed_by sem value_hazard s r.
+  Proof.
+    unfold FileIORows.typed_by. generalize (cells_of_rec (mcols r)) as cells.
+    intros cells Hb Hhz. induction Hb as [|[n p] cells Hx _ IH]; [constructor|].
     inversion Hhz as [|? ? Hh Hhz']; subst. constructor; [|now apply IH].
     cbn [fst snd] in *. unfold exact_cell, built_cell in *.
     destruct (s_class s n) as [[|c]|]; destruct p as [t|c' w]; try tauto.
     destruct Hx as [-> Hx]. auto.
+  Qed.
+
+  Theorem parsed_typed_by (s : scheme) line ln m lg l (r : mrec) :
+    s_truthy s = true -> NoDup (s_names s) ->
+    from_line sem line None (Some s) ln (Some m) lg = (l, Ok r) -> merrs r = [] ->
+    Forall (fun np => match snd np with PTyped c w => value_hazard c w = false | PPlain _ => True end)
+           (cells_of_rec (mcols r)) ->
+    typed_by sem value_hazard s r.
+  Proof.
+    intros Ht ND H Herr Hhz. apply built_typed_by; [|exact Hhz]. eapply parsed_built; eauto.
   Qed.
 End Parsed.
